@@ -136,6 +136,14 @@ class Flow:
             return any(self._derives(d, depth + 1, seen) for d in self.ctx.prov.expand(e))
         if k == "phi":
             return any(self._derives(d, depth + 1, seen) for d in e[1])
+        if k == "place":
+            # a local that is also borrowed mutably (an owner whose `&mut self` helper was expanded): everything assigned to it
+            key = ("place", e[1])
+            if key in seen:
+                return False
+            seen.add(key)
+            prov = self.ctx.prov
+            return any(self._derives(prov.def_expr(d, k2, 0, frozenset()), depth + 1, seen, through_owner) for k2, ds in prov.defs.items() if k2[0] == e[1] and k2[1] is None for d in ds)
         return False
 
     def subs_of(self, e):
@@ -167,9 +175,14 @@ class Flow:
 
     def events(self):
         """{bb: [(order, sub, what)]} disposal events; order = stmt index or large for terminator."""
+        if not getattr(self, "_second_pass", False):
+            # first pass only to learn which owners receive the resource through a field store (block order is not program order)
+            self._second_pass = True
+            self._stored_known = set()
+            self.events()
         ctx, cfg = self.ctx, self.cfg
         ev = {}
-        stored_into = set()
+        stored_into = self._stored_known
         owned_adts = self.summaries["owner_adts"]
         for b in ctx.fn["blocks"]:
             bid = b["id"]
@@ -193,12 +206,28 @@ class Flow:
                 # a raw resource stored into a field/slot of a live owner (e.g. guard.maps[i] = (ptr, len))
                 if s["k"] == "assign" and s["dst"].get("p") and s["dst"]["l"] != 0:
                     lty = ctx.prov.local_ty.get(s["dst"]["l"], "").split("<")[0]
-                    if lty in owned_adts and self.kind in owned_adts[lty] and not any(pe["k"] == "deref" for pe in s["dst"]["p"]):
+                    proj = s["dst"]["p"]
+                    via_ref_owner = None
+                    if lty.startswith("&mut ") and proj and proj[0]["k"] == "deref" and lty[5:] in owned_adts:
+                        # a store through `&mut owner` (the body of an expanded `fn track(&mut self, ..)` helper): a store into that owner
+                        lty, proj = lty[5:], proj[1:]
+                        tgt = strip_casts(ctx.prov.operand({"k": "copy", "p": {"l": s["dst"]["l"]}}, (bid, i)))
+                        n_ = 0
+                        while isinstance(tgt, tuple) and tgt[0] in ("ref", "deref", "addr") and n_ < 6:
+                            tgt = strip_casts(tgt[2] if tgt[0] in ("ref", "addr") else tgt[1])
+                            n_ += 1
+                        if isinstance(tgt, tuple) and tgt[0] in ("place", "var") and isinstance(tgt[1], int):
+                            via_ref_owner = tgt[1]
+                    if lty in owned_adts and self.kind in owned_adts[lty] and not any(pe["k"] == "deref" for pe in proj):
                         e = ctx.prov.rvalue(s["rv"], (bid, i))
-                        if self.derives_raw(e):
+                        # an update of the owner's own bookkeeping from its own fields (`self.count += 1`) stores no new resource
+                        own = via_ref_owner if via_ref_owner is not None else s["dst"]["l"]
+                        self_update = mentions(e, ctx.prov, lambda z: z[0] == "field" and mentions(z[1], ctx.prov, lambda w: w[0] in ("place", "var") and w[1] == own)) and \
+                            not any(z[0] == "call" and z[3] == self.site for z in walk(e))     # (shallow: the owner itself was built from the resource)
+                        if self.derives_raw(e) and not self_update:
                             for sub in self.subs_of(e):
                                 ev.setdefault(bid, []).append((i, sub, f"stored into {lty.split('::')[-1]}", 1))
-                                stored_into.add(s["dst"]["l"])
+                                stored_into.add(via_ref_owner if via_ref_owner is not None else s["dst"]["l"])
             for i, s in enumerate(b["stmts"]):
                 if s["k"] == "assign" and s["dst"]["l"] == 0:
                     e = ctx.prov.rvalue(s["rv"], (bid, i))
